@@ -3,10 +3,14 @@ from ._stream import make
 
 PROPERTY = 'C06'
 TIERS = {'quick': {'runs': 16000, 'group': 250}, 'thorough': {'runs': 400000, 'group': 1000}}
-RULE = ('Each run draws a base document (grammar generator, deep/alternating nesting to depth 40, '
-        'repository corpus, sizing-command sweep, or a 0-6 symbol string over the token-kind alphabet), '
-        'a chunking, an input form and 0-3 reader faults (EOF/LOSS/DUP/SWAP/FLIP/JUNK, half placed at '
-        'in-flight sites), then parses the delivered text in both tolerance modes under the step clock. '
-        'A run is non-trivial if at least one fault fired or the text is an alphabet string; it is '
-        'distinct by the digest of (delivered text, skip_envs).')
+RULE = ('Each run is one of: doc (grammar document, a chunking, an input form and 0-3 reader faults EOF/LOSS/DUP/SWAP/'
+        'FLIP/JUNK, half placed at in-flight sites), deep (nesting to depth 40, env/command alternation, nested math and '
+        'bracket arguments, half truncated), alphabet (0-6 symbols over the token-kind alphabet incl. one representative '
+        'per kind of Unicode code point), repeat (a 1-3 symbol unit repeated 5-40 times), tail (every 8th run; the run '
+        'index walks through all ordered pairs, then triples, of alphabet symbols placed at the very end of the input '
+        'after a context with a construct in flight), corpus, sizing sweep, wellformed (fault-free restricted-grammar '
+        'document: no diagnostic allowed) and cause (restricted-grammar document with exactly one inserted construct '
+        'that a diagnostic is for). The delivered text is parsed in both tolerance modes under the step clock and a '
+        'memory cap. Non-trivial: a fault fired, or an alphabet/repeat/tail/wellformed/cause run; distinct by the digest '
+        'of (delivered text, skip_envs).')
 setup, teardown, gen, run, minimize, sample = make(PROPERTY)
